@@ -15,6 +15,7 @@ NOT_DECIDED = "nothing schedule-dependent once R1-R5 hold; std::sync::Mutex is t
 TECHNIQUE = "static analysis: mutex guard live-range (lock-region) analysis over MIR + panic-site discharge inside the regions"
 
 RULES = {
+    "C16.RG": lambda ctx: __import__("rules.foundations", fromlist=["x"]).no_global_state(ctx, "C16.RG"),
     "C16.R7": lambda ctx: __import__("rules.foundations", fromlist=["x"]).iterator_overrides(ctx, "C16.R7"),
     "C16.R1": svrules.r1_writes_under_lock,
     "C16.R2": svrules.r2_single_section,
